@@ -257,7 +257,7 @@ impl Check for Access {
                 },
             };
             let exp = m.apply(s);
-            st.hit(if got { "tx.ok" } else { "tx.refused" });
+            st.tx(kind, got);
             if got != exp {
                 let check = match (kind, got) {
                     ("grant_role", true) => "grant.needs_admin_or_role_admin",
